@@ -601,7 +601,12 @@ def run(ctx):
                     "byte identity: payload byte = f(call number, offset) (251-periodic pattern)"]
     ctx.assumptions += ["POLLOUT is delivered by epoll whenever the watcher is armed (socket buffers never fill: payloads are small)",
                         "UV_HANDLE_BLOCKING_WRITES is not set (tty only); the send_handle is not closing"]
-    ctx.require_lean(["UvModel.Props.C05"])
+    ctx.trusted += ["tools/gen_lean.py (clang AST -> Lean for the loop-free kernels try_write2, check_before_write, try_write_iovcnt, "
+                    "try_write_result) and UvModel/CSem.lean"]
+    # Tie A: the kernels above regenerated from /repo, GenEq/C05 re-proves them = StreamW.tryWrite2 / checkBeforeWrite / tryWriteOnce
+    # (a failing translation is recorded in ctx.broken by gen_lean itself)
+    ctx.gen_lean(need=["C05", "C07"])
+    ctx.require_lean(["UvModel.GenEq.C05", "UvModel.Props.C05"])
     uexe = ctx.harness("c05_requpdate", ["harness/c05_requpdate.c"], link_lib=True)
     sexe = ctx.harness("c05_sim", ["harness/c05_sim.c"], link_lib=True)
     # same harness against the NDEBUG build of the library: behaviour behind the asserts of stream.c
